@@ -4,6 +4,8 @@ V = os.path.dirname(os.path.dirname(os.path.abspath(__file__)))
 TB = ("Trusted: Coq 8.16.1 kernel; the axioms Print Assumptions reports (none unless listed in the evidence); "
       "the correspondence harness (generators, canonicalisation); extraction (ExtrOcamlBasic) + OCaml driver, "
       "cross-checked by an in-Coq vm_compute shard; modelled-not-verified parts per DESIGN.md section 3. ")
+PT = ("Coq proof over Gallina models of the semantic cores + model/implementation correspondence + generative search on the real "
+      "readers/writers (partial: text/XML glue is tested, not proved)")
 CHECKS = {
  "C08": dict(text="Theorems (coq/props/C08.v) prove for ALL byte orders, widths, positions and notations that set/get_startbit are "
              "mutually inverse, that every notation's number denotes the same physical bit of the stored signal, and that exactly the "
@@ -66,6 +68,77 @@ CHECKS = {
              "deep-copy independence.",
              note=TB + "Model: coq/model/CopyOps.v (after the fixes cc0f6c0, 3434241, 7a6c373 in /repo). frame_by_id is a scan here (C10 covers the memo). direct_ecu_only=True deleting non-communicating ECUs is by design and not claimed as a violation.",
              technique="Coq proof over a Gallina model of copy/merge + model/implementation correspondence on histories + oracle-based search", ref="5/C12"),
+
+ "C04": dict(text="Theorems (coq/props/C04.v) prove over a Gallina transcription of _pydecimal's add/mul/div/round (prec 28, half-even): raw2phys is exactly "
+             "raw*factor+offset and phys2raw(raw2phys(raw)) = raw for EVERY integer raw with <= 28 digits (all widths 1..64, signed or not) whenever the "
+             "exact results have <= 28 significant digits and factor <> 0; two _refuted witnesses show both digit hypotheses are needed; factor 0 -> 1; "
+             "value tables (label -> key, named value = label or scaled number, unique-label round trip); default min/max are the images of the raw "
+             "range bounds. Tie: 24k decimal operations vs the C decimal module compared as as_tuple(), signal construction and per-raw results; search "
+             "with exact Fractions over every raw for widths <= 12 x 64 scalings.",
+             note=TB + "Model: coq/model/Decimal.v, Scaling.v, ValueTable.v. The C decimal module and Decimal(str) parsing are trusted (tied by differential runs); the sign of zero is not modelled; float signals and non-label strings are outside.",
+             technique="Coq proof over a Gallina model of decimal arithmetic + model/implementation correspondence + exact-rational search oracle", ref="5/C04"),
+ "C10": dict(text="Theorems (coq/props/C10.v) prove by induction over ALL operation sequences on any number of matrices (add/remove/delete/rename frames, "
+             "identifier replaced or changed in place, reader-style append, add_ecu, copy_frame, merge, lookups) that the memo invariant holds, that "
+             "frame_by_id returns a frame currently in that matrix carrying the key and None exactly when a scan finds none, that name/PGN/header-id "
+             "lookups equal the scan, and that operations on one matrix never change another matrix's frames or lookup answers. The pre-fix stale state "
+             "is exhibited as the state the invariant excludes. Tie/search: 1.3M enumerated histories (prefix-closed, quick) / 14M (thorough) plus random "
+             "30-step histories incl. DBC-loaded matrices, every lookup compared with a scan oracle and with the model; failing histories are shrunk.",
+             note=TB + "Model: coq/model/Lookup.v (after fix a855173). get_frame_by_id/get_frame_by_name (dict indexes) and callers mutating db.frames directly (other than reader-style append) are outside, as the property says.",
+             technique="Coq proof (invariant + refinement to a scan, induction over operation sequences) + exhaustive small-scope and random history correspondence", ref="5/C10"),
+ "C13": dict(text="Theorems (coq/props/C13.v) prove for a function-by-function Gallina mirror of compare.py: comparing a matrix with itself reports nothing; for "
+             "all 16 ignore settings nothing is reported IFF the matrices agree on the independent specification `agree` (frames, ids, senders, signals, "
+             "groups, every signal field, ECUs, and unless ignored comments/attributes/definitions/value tables), per object kind and composed; every "
+             "differing compared property is reported under the right object with the right kind; swapping operands swaps added/deleted (Permutation); "
+             "CLI flags map to the ignore settings. Two _refuted witnesses show the unique-id and coherence hypotheses are needed. Tie: CompareResult "
+             "trees vs the model's trees in exact order; search: self-compare, every single edit x 16 ignore settings, swap, CLI entry point.",
+             note=TB + "Model: coq/model/Compare.v (after fixes 0da958a, 53cd885). Doubles enter as bit patterns of float(x); dump_result printing is outside; a frame that re-uses an identifier under another name is outside the completeness envelope (visible hypothesis).",
+             technique="Coq proof over a Gallina mirror of compare.py + model/implementation correspondence on result trees + edit-catalogue search", ref="5/C13"),
+ "C16": dict(text="Theorems (coq/props/C16.v) prove: the usage map lists at each bit exactly the signals that occupy it (= the signals whose decoded value "
+             "depends on it, via C01); create_dummy_signals keeps existing signals and makes every bit belong to exactly one signal when none overlapped; "
+             "calc_dlc/recalc_dlc give the least covering byte count (never below the declared one unless forced) for both byte orders; fit_dlc gives the "
+             "least CAN FD length (finite sweep 0..64 lifted, > 64 unchanged; also tied by the translator); compress terminates (strictly decreasing "
+             "measure), keeps widths/byte orders/relative order, creates no overlap and leaves no gap before the last signal. Tie/search: exhaustive gap "
+             "patterns of 1-2 byte frames, sampled 3-byte patterns, all lengths 0..64, payload-bit flips through Frame.decode.",
+             note=TB + "Model: coq/model/Layout.v (after fix aebbbf1). PDU-container branches of calc_dlc/recalc_dlc are outside; for mixed byte orders compress does nothing (modelled, tied, no theorem beyond termination).",
+             technique="Coq proof over a Gallina model (fuelled loops with termination measure) + translator tie for fit_dlc + exhaustive small-scope correspondence", ref="5/C16"),
+ "C05": dict(text="PARTIAL. Theorems (coq/props/C05.v): DBC start-bit numbering and compound ids round-trip (via C08/C09), multiplex tokens, long names under the "
+             "stated unique-32-character-prefix condition (with a witness that it is needed), enum key/value conversion, initial value <-> GenSigStartValue, "
+             "format_float text parses back to the same value, and a statement-level model dbc_read (dbc_write m) = m with dbc_write a fixed point for the "
+             "core subset (ECUs, value tables, frames, senders, signals with placement/type/scaling/limits/unit/receivers/simple multiplexing, VAL_). What "
+             "decides the sentence on the real code is the search: 1200 generated matrices covering 51 content classes and 5 encoding profiles, "
+             "dump->load compared field by field, no 'error with line no', dump(load(dump(m))) byte-identical.",
+             note=TB + "Model: coq/model/FmtDbc.v (after fixes c455eb5, b2d42a9, 1508530, 9eb66f7, 460cad5). NOT proved: that the regular expressions of load() invert the string formatting of dump(); comments, attribute definitions, signal groups, environment variables, SG_MUL_VAL_ ranges and encodings are decided by the search only.",
+             technique=PT, ref="5/C05"),
+ "C06": dict(text="PARTIAL. Theorems (coq/props/C06.v): for each of DBC, DBF, SYM, KCD, JSON, XLS (all three notations), ARXML the position codec read (write p) = p "
+             "for every start >= 0, width >= 1 and both byte orders, the written numbers denote the physical coordinates of the LSB/MSB (so writer and "
+             "reader cannot be wrong in the same way), the identifier codec round-trips every valid standard/extended id (with the pre-fix DBF reader "
+             "refuted), same payload bits and raw fields through Codec.decode_signal, cluster partition preserved. The search decides it on the real code: "
+             "11 format configurations x generated matrices + a placement sweep, dump->load, frames by (id, format), signals by name, occupied bits and "
+             "Frame.decode on random payloads, clusters of 1..3 buses.",
+             note=TB + "Model: coq/model/FmtPos.v. NOT proved: regex/lxml/json/xlrd glue between bytes and the modelled fields (extractors tie the fields on real output).",
+             technique=PT, ref="5/C06"),
+ "C07": dict(text="PARTIAL. Theorems (coq/props/C07.v): type words (sign/float) round-trip per format and width class, ARXML base type wide enough, multiplex tokens "
+             "incl. selector 0 (DBC M/m<n>/m<n>M, simple formats, SYM hex/decimal selector), Decimal(str(d)) and format_float text parse back exactly. The "
+             "search decides the feature table on the real code (factor/offset with up to 12 digits, value tables, units, multiplexing, senders, "
+             "receivers, phys/named values of decoded payloads) for 11 format configurations; four defects that have no small repair are listed as "
+             "known findings.",
+             note=TB + "Model: coq/model/FmtNum.v. NOT proved: the characters joining the tokens, value-table/unit strings, sender/receiver lists (search only).",
+             technique=PT, ref="5/C07"),
+ "C14": dict(text="PARTIAL. Theorems (coq/props/C14.v): each writer's effect on its argument is the identity (after the fixes arxml/fibex/kcd work on copies; the "
+             "unfixed effects are modelled too, refuted by witnesses and proved identity under receivers-propagated / unique-name hypotheses), any export "
+             "history leaves the matrix unchanged so a later export equals the same export alone, and the SYM Mux-group emission is invariant under "
+             "permutation of the iteration order (sorted). The search decides it on the real code: deep snapshots before/after each of 13 writers, every "
+             "ordered pair of writers, repeated exports in separate processes under 3 (quick) / 8 (thorough) hash seeds.",
+             note=TB + "Model: coq/model/ExportEffects.v. CPython's actual hash order cannot be exhibited by a model: that part is run, not proved. Fields outside the small matrix type are covered by the snapshot comparison only.",
+             technique=PT, ref="5/C14"),
+ "C19": dict(text="PARTIAL. Theorems (coq/props/C19.v): the numbers the Scapy, Wireshark, FIBEX, CSV and Canard writers emit, read with the transcribed tool "
+             "conventions, select exactly the signal's payload bits (pos_of of C01) for every placement, frame length and byte order; the Wireshark Lua "
+             "incl. its sign fix-up computes the C01 convention value; width/order/sign are recorded; Canard is proved for Intel and byte-local Motorola "
+             "signals and refuted for byte-crossing Motorola signals (format limitation); FIBEX multiplexed frames: segment-relative reading holds iff the "
+             "segment starts at 0 (known finding). The search parses real writer output with independent mini-parsers and applies the conventions to "
+             "random payloads.",
+             note=TB + "Model: coq/model/Exports.v. The tool conventions (T-SCAPY, T-WIRESHARK, T-FIBEX = canmatrix's own importer since the ASAM text is not available offline, T-CSV, T-CANARD) are transcriptions and part of the trusted base; they are printed in the evidence. Generated syntax, identifiers, scaling text are checked on real output only.",
+             technique=PT, ref="5/C19"),
 }
 NOT_YET = {}
 props = [json.loads(l) for l in open(os.path.join(V, "properties.jsonl"))]
